@@ -1,3 +1,378 @@
-import OllamaVerif.Model.Names
+/-
+  C13 — Model names and digests cannot address anything outside the model store.
+
+  Property theorems over the byte-level model `OllamaVerif.Names` (Model/Names.lean); helper lemmas are
+  in Proofs/Names.lean.  Every theorem is for ALL byte strings / all names (no length or alphabet bound).
+-/
+import OllamaVerif.Proofs.Names
 namespace OllamaVerif.C13
+open OllamaVerif OllamaVerif.Names
+
+theorem orMissing_ne {s : Bytes} (h : s ≠ []) : orMissing s = s := by
+  cases s with
+  | nil => exact absurd rfl h
+  | cons x xs => simp [orMissing, orElse]
+
+theorem orElse_ne {s d : Bytes} (h : s ≠ []) : orElse s d = s := by
+  cases s with
+  | nil => exact absurd rfl h
+  | cons x xs => simp [orElse]
+
+structure FQParts (n : Name) : Prop where
+  hne : n.host ≠ []
+  nne : n.ns ≠ []
+  mne : n.model ≠ []
+  tne : n.tag ≠ []
+  hslash : ∀ c ∈ n.host, c ≠ cSlash
+  nslash : ∀ c ∈ n.ns, c ≠ cSlash
+  mslash : ∀ c ∈ n.model, c ≠ cSlash
+  tslash : ∀ c ∈ n.tag, c ≠ cSlash
+  ncolon : ∀ c ∈ n.ns, c ≠ cColon
+  mcolon : ∀ c ∈ n.model, c ≠ cColon
+  tcolon : ∀ c ∈ n.tag, c ≠ cColon
+
+theorem fqParts_of_isFQM {n : Name} (h : isFQM n = true) : FQParts n := by
+  simp only [isFQM, Bool.and_eq_true] at h
+  obtain ⟨⟨⟨hh, hn⟩, hm⟩, ht⟩ := h
+  exact {
+    hne := validPartM_ne_nil hh, nne := validPartM_ne_nil hn, mne := validPartM_ne_nil hm, tne := validPartM_ne_nil ht
+    hslash := (validPartM_safe hh).noSlash, nslash := (validPartM_safe hn).noSlash
+    mslash := (validPartM_safe hm).noSlash, tslash := (validPartM_safe ht).noSlash
+    ncolon := validPart_noColon (by decide) (by decide) (validPartM_charsOk hn)
+    mcolon := validPart_noColon (by decide) (by decide) (validPartM_charsOk hm)
+    tcolon := validPart_noColon (by decide) (by decide) (validPartM_charsOk ht) }
+
+theorem toStr_fq {n : Name} (p : FQParts n) :
+    toStr n = (n.host ++ cSlash :: n.ns ++ cSlash :: n.model) ++ cColon :: n.tag := by
+  have h1 : n.host.isEmpty = false := by simpa [List.isEmpty_iff] using p.hne
+  have h2 : n.ns.isEmpty = false := by simpa [List.isEmpty_iff] using p.nne
+  have h3 : n.tag.isEmpty = false := by simpa [List.isEmpty_iff] using p.tne
+  simp [toStr, h1, h2, h3]
+
+theorem print_parse_model_parts {n : Name} (p : FQParts n) : parseNameBare (toStr n) = n := by
+  rw [toStr_fq p]
+  have hb : n.host ++ cSlash :: n.ns ++ cSlash :: n.model ≠ [] := by simp
+  have hcut : cutTag ((n.host ++ cSlash :: n.ns ++ cSlash :: n.model) ++ cColon :: n.tag)
+      = (n.host ++ cSlash :: n.ns ++ cSlash :: n.model, n.tag) := by
+    unfold cutTag
+    rw [splitLast_append _ _ _ cColon (by decide)]
+    · simp only [orMissing_ne hb, orMissing_ne p.tne]; simp
+    · intro x hx
+      have := p.tslash x hx; have := p.tcolon x hx
+      simp [*]
+  have hc1 : cutPromised cSlash (n.host ++ cSlash :: n.ns ++ cSlash :: n.model)
+      = some (n.host ++ cSlash :: n.ns, n.model) := by
+    unfold cutPromised
+    rw [splitLast_append _ (n.host ++ cSlash :: n.ns) n.model cSlash (by simp)]
+    · have : n.host ++ cSlash :: n.ns ≠ [] := by simp
+      simp only [orMissing_ne this, orMissing_ne p.mne]
+    · intro x hx; simpa using p.mslash x hx
+  have hc2 : cutPromised cSlash (n.host ++ cSlash :: n.ns) = some (n.host, n.ns) := by
+    unfold cutPromised
+    rw [splitLast_append _ n.host n.ns cSlash (by simp)]
+    · simp only [orMissing_ne p.hne, orMissing_ne p.nne]
+    · intro x hx; simpa using p.nslash x hx
+  unfold parseNameBare
+  simp only [hcut, hc1, hc2, cutScheme_none n.host p.hslash]
+
+
+theorem print_parse_names_parts {n : Name} (p : FQParts n) (hlen : (toStr n).length ≤ maxNameLength) :
+    parseN (toStr n) = n := by
+  unfold parseN
+  rw [if_neg (by omega)]
+  rw [toStr_fq p] at hlen ⊢
+  have hlen' : ((n.host ++ cSlash :: n.ns ++ cSlash :: n.model) ++ cColon :: n.tag).length + 1
+      = ((n.host ++ cSlash :: n.ns ++ cSlash :: n.model).length + n.tag.length) + 1 + 1 := by
+    simp only [List.length_append, List.length_cons]; omega
+  rw [hlen']
+  have s1 : splitLast (fun c => c == cSlash || c == cColon)
+      ((n.host ++ cSlash :: n.ns ++ cSlash :: n.model) ++ cColon :: n.tag)
+      = some (n.host ++ cSlash :: n.ns ++ cSlash :: n.model, n.tag, cColon) := by
+    apply splitLast_append _ _ _ cColon (by decide)
+    intro x hx
+    have := p.tslash x hx; have := p.tcolon x hx
+    simp [*]
+  have s2 : splitLast (fun c => c == cSlash || c == cColon) (n.host ++ cSlash :: n.ns ++ cSlash :: n.model)
+      = some (n.host ++ cSlash :: n.ns, n.model, cSlash) := by
+    apply splitLast_append _ (n.host ++ cSlash :: n.ns) n.model cSlash (by decide)
+    intro x hx
+    have := p.mslash x hx; have := p.mcolon x hx
+    simp [*]
+  have s3 : splitLast (fun c => c == cSlash) (n.host ++ cSlash :: n.ns) = some (n.host, n.ns, cSlash) := by
+    apply splitLast_append _ n.host n.ns cSlash (by simp)
+    intro x hx; simpa using p.nslash x hx
+  have hcc : (cColon == cColon) = true := by decide
+  have hsc : (cSlash == cColon) = false := by decide
+  simp only [parseNLoop, s1, s2, s3, hcc, hsc, if_true, Bool.false_eq_true, if_false]
+
+
+/-! ## 1. accepted parts are safe path components -/
+
+/-- **types/model**: a part accepted by `isValidPart` (any kind) is non-empty, within its length limit, is not
+    `.` or `..`, does not start with `.`, and contains none of `/`, `\`, NUL, `@`. -/
+theorem valid_part_safe_model (k : Kind) (s : Bytes) (h : validPartM k s = true) :
+    SafeComp s ∧ 1 ≤ s.length ∧ s.length ≤ maxLen k := by
+  refine ⟨validPartM_safe h, ?_, validPartM_len h⟩
+  have := validPartM_ne_nil h
+  cases s with
+  | nil => exact absurd rfl this
+  | cons x xs => simp
+
+/-- **names**: the same for the new parser's `isValidPart` on a non-empty part. -/
+theorem valid_part_safe_names (k : Kind) (s : Bytes) (hne : s ≠ []) (h : validPartN k s = true) :
+    SafeComp s ∧ s.length ≤ maxLen k := by
+  refine ⟨validPartN_safe hne h, ?_⟩
+  simp only [validPartN, Bool.and_eq_true, decide_eq_true_eq] at h; exact h.1
+
+/-! ## 2. print / parse round trips -/
+
+theorem merge_fq {n d : Name} (p : FQParts n) : merge n d = n := by
+  cases n with
+  | mk h ns m t =>
+    simp only [merge, orElse_ne p.hne, orElse_ne p.nne, orElse_ne p.tne]
+
+/-- **types/model**: printing a fully qualified name and parsing it (with or without defaults) gives the
+    same four parts back. -/
+theorem print_parse_model (n : Name) (h : isFQM n = true) :
+    parseNameBare (toStr n) = n ∧ parseName (toStr n) = n := by
+  have p := fqParts_of_isFQM h
+  have hb := print_parse_model_parts p
+  exact ⟨hb, by rw [parseName, hb, merge_fq p]⟩
+
+/-- **types/model round trip**: for every byte string `s` that `ParseName` accepts,
+    `ParseName(ParseName(s).String()) = ParseName(s)`. -/
+theorem roundtrip_model (s : Bytes) (h : isFQM (parseName s) = true) :
+    parseName (toStr (parseName s)) = parseName s :=
+  (print_parse_model _ h).2
+
+theorem validPartM_eq (k : Kind) (s : Bytes) : validPartM k s = (!s.isEmpty && validPartN k s) := by
+  cases s with
+  | nil => simp [validPartM, validPartN]
+  | cons x xs => simp [validPartM, validPartN]
+
+/-- the two packages' notions of "fully qualified" coincide on every name -/
+theorem isFQM_eq_isFQN (n : Name) : isFQM n = isFQN n := by
+  simp only [isFQM, isFQN, isValidN, validPartM_eq]
+  generalize validPartN .host n.host = a
+  generalize validPartN .ns n.ns = b
+  generalize validPartN .model n.model = c
+  generalize validPartN .tag n.tag = d
+  generalize n.host.isEmpty = e
+  generalize n.ns.isEmpty = f
+  generalize n.model.isEmpty = g
+  generalize n.tag.isEmpty = i
+  revert a b c d e f g i; decide
+
+theorem toStr_len_fq {n : Name} (h : isFQM n = true) : (toStr n).length ≤ maxNameLength := by
+  have p := fqParts_of_isFQM h
+  rw [toStr_fq p]
+  simp only [isFQM, Bool.and_eq_true] at h
+  obtain ⟨⟨⟨hh, hn⟩, hm⟩, ht⟩ := h
+  have := validPartM_len hh; have := validPartM_len hn; have := validPartM_len hm; have := validPartM_len ht
+  simp only [maxLen] at *
+  simp only [List.length_append, List.length_cons, maxNameLength]
+  omega
+
+/-- **names**: printing a fully qualified name and parsing it gives the same four parts back. -/
+theorem print_parse_names (n : Name) (h : isFQN n = true) : parseN (toStr n) = n := by
+  rw [← isFQM_eq_isFQN] at h
+  exact print_parse_names_parts (fqParts_of_isFQM h) (toStr_len_fq h)
+
+/-- **names round trip through the registry client**: whatever `Registry.parseName` accepts (any mask, any
+    input) prints to a string that parses back to the same name, bare (as the cache's `nameToPath` does) and
+    through `parseName` again. -/
+theorem roundtrip_names (mask : Name) (s : Bytes) (n : Name) (h : registryParseName mask s = some n) :
+    parseN (toStr n) = n ∧ registryParseName mask (toStr n) = some n ∧ isFQN n = true := by
+  unfold registryParseName at h
+  simp only at h
+  split at h
+  · rename_i hfq
+    cases h
+    have hp := print_parse_names _ hfq
+    have hfq' := hfq
+    rw [← isFQM_eq_isFQN] at hfq'
+    refine ⟨hp, ?_, hfq⟩
+    unfold registryParseName
+    simp only [hp, merge_fq (fqParts_of_isFQM hfq'), hfq, if_true]
+  · cases h
+
+/-- a bare `names.Parse` result that is valid and does not have a host without a namespace -/
+def bareOk (n : Name) : Bool := isValidN n && (n.host.isEmpty || !n.ns.isEmpty)
+
+/-! ## 3. cross-parser agreement on fully qualified names -/
+
+/-- **cross**: a fully qualified name printed by types/model is read back with the same parts (and as fully
+    qualified) by `names.Parse`, and vice versa. -/
+theorem cross_parsers (n : Name) :
+    (isFQM n = true → isFQN n = true ∧ parseN (toStr n) = n) ∧
+    (isFQN n = true → isFQM n = true ∧ parseName (toStr n) = n ∧ parseNameBare (toStr n) = n) := by
+  constructor
+  · intro h
+    have h' : isFQN n = true := by rw [← isFQM_eq_isFQN]; exact h
+    exact ⟨h', print_parse_names n h'⟩
+  · intro h
+    have h' : isFQM n = true := by rw [isFQM_eq_isFQN]; exact h
+    exact ⟨h', (print_parse_model n h').2, (print_parse_model n h').1⟩
+
+/-! ## 4. path confinement -/
+
+theorem safe_manifests : SafeComp sManifests := by
+  refine ⟨by decide, by decide, by decide, by decide, by decide⟩
+
+theorem safe_blobs : SafeComp sBlobs := by
+  refine ⟨by decide, by decide, by decide, by decide, by decide⟩
+
+/-- `filepath.Join(root, sub, rel)` for an absolute root given by safe components `rc`, a safe directory
+    name `sub` and a relative path of safe components: exactly `rc ++ sub :: comps`, nothing cleaned away. -/
+theorem pathJoin_root (rc : List Bytes) (hrc : rc ≠ []) (hs : ∀ c ∈ rc, SafeComp c) (sub : Bytes)
+    (hsub : SafeComp sub) (comps : List Bytes) (hne : comps ≠ []) (hc : ∀ c ∈ comps, SafeComp c) :
+    pathJoin [absPath rc, sub, joinWith cSlash comps] = absPath (rc ++ sub :: comps) := by
+  have hroot : (absPath rc).isEmpty = false := by simp [absPath]
+  have hj : joinWith cSlash [absPath rc, sub, joinWith cSlash comps] = absPath (rc ++ sub :: comps) := by
+    obtain ⟨c0, cs, rfl⟩ := List.exists_cons_of_ne_nil hne
+    simp only [absPath, joinWith_append cSlash rc (sub :: c0 :: cs) hrc (by simp), joinWith]
+    simp
+  unfold pathJoin
+  simp only [List.dropWhile, hroot]
+  rw [hj]
+  apply clean_absPath _ (by simp)
+  intro c hcm
+  rcases List.mem_append.mp hcm with h | h
+  · exact hs c h
+  · rcases List.mem_cons.mp h with rfl | h
+    · exact hsub
+    · exact hc c h
+
+theorem fq_safe {n : Name} (h : isFQM n = true) :
+    ∀ c ∈ [n.host, n.ns, n.model, n.tag], SafeComp c := by
+  simp only [isFQM, Bool.and_eq_true] at h
+  obtain ⟨⟨⟨hh, hn⟩, hm⟩, ht⟩ := h
+  intro c hc
+  simp only [List.mem_cons, List.not_mem_nil, or_false] at hc
+  rcases hc with rfl | rfl | rfl | rfl
+  · exact validPartM_safe hh
+  · exact validPartM_safe hn
+  · exact validPartM_safe hm
+  · exact validPartM_safe ht
+
+theorem pathJoin_parts {n : Name} (h : isFQM n = true) :
+    pathJoin [n.host, n.ns, n.model, n.tag] = joinWith cSlash [n.host, n.ns, n.model, n.tag] := by
+  have p := fqParts_of_isFQM h
+  have hh : n.host.isEmpty = false := by simpa [List.isEmpty_iff] using p.hne
+  unfold pathJoin
+  simp only [List.dropWhile, hh]
+  exact clean_relPath _ (by simp) (fq_safe h)
+
+/-- **`Name.Filepath`**: defined exactly for fully qualified names, and then it is the four parts joined by
+    `/` — four components, each a safe one. -/
+theorem filepath_shape (n : Name) :
+    (isFQM n = false → filepathM n = none) ∧
+    (isFQM n = true → filepathM n = some (joinWith cSlash [n.host, n.ns, n.model, n.tag]) ∧
+      ∀ c ∈ [n.host, n.ns, n.model, n.tag], SafeComp c) := by
+  constructor
+  · intro h; simp [filepathM, h]
+  · intro h; exact ⟨by simp [filepathM, h, pathJoin_parts h], fq_safe h⟩
+
+/-- **Legacy manifest path confinement** (`ModelPath.GetManifestPath`, i.e. `filepath.Join(models,
+    "manifests", name.Filepath())`): for every name whatsoever, either the call is refused or the result is
+    `<models>/manifests/<host>/<ns>/<model>/<tag>` with exactly these components, each safe — the models
+    directory's own components are a prefix, the depth below it is exactly 5, nothing is `..`. -/
+theorem manifest_path_confined_legacy (rc : List Bytes) (hrc : rc ≠ []) (hs : ∀ c ∈ rc, SafeComp c)
+    (mp : ModelPath) :
+    mpManifestPath (absPath rc) mp = none ∨
+    (mpManifestPath (absPath rc) mp =
+        some (absPath (rc ++ [sManifests, mp.registry, mp.ns, mp.repo, mp.tag])) ∧
+      ∀ c ∈ [mp.registry, mp.ns, mp.repo, mp.tag], SafeComp c) := by
+  cases hfq : isFQM mp.toName with
+  | false => left; simp [mpManifestPath, (filepath_shape mp.toName).1 hfq]
+  | true =>
+    right
+    obtain ⟨hfp, hsafe⟩ := (filepath_shape mp.toName).2 hfq
+    refine ⟨?_, hsafe⟩
+    simp only [mpManifestPath, hfp]
+    exact congrArg some (pathJoin_root rc hrc hs sManifests safe_manifests _ (by simp) hsafe)
+
+/-- the same for every input STRING through `ParseModelPath` -/
+theorem rejected_or_confined_legacy (rc : List Bytes) (hrc : rc ≠ []) (hs : ∀ c ∈ rc, SafeComp c) (s : Bytes) :
+    mpManifestPath (absPath rc) (parseModelPath s) = none ∨
+    ∃ h ns m t, (∀ c ∈ [h, ns, m, t], SafeComp c) ∧
+      mpManifestPath (absPath rc) (parseModelPath s) = some (absPath (rc ++ [sManifests, h, ns, m, t])) := by
+  rcases manifest_path_confined_legacy rc hrc hs (parseModelPath s) with h | ⟨h, hsafe⟩
+  · exact Or.inl h
+  · exact Or.inr ⟨_, _, _, _, hsafe, h⟩
+
+/-- **New cache** (`blob.nameToPath`): for every input string, either `errInvalidName` or the relative path
+    `<host>/<ns>/<model>/<tag>` of four safe components of the parsed (fully qualified) name. -/
+theorem nameToPath_shape (s : Bytes) :
+    nameToPath s = none ∨
+    (isFQN (parseN s) = true ∧
+     nameToPath s = some (joinWith cSlash [(parseN s).host, (parseN s).ns, (parseN s).model, (parseN s).tag]) ∧
+     ∀ c ∈ [(parseN s).host, (parseN s).ns, (parseN s).model, (parseN s).tag], SafeComp c) := by
+  cases hfq : isFQN (parseN s) with
+  | false => left; simp [nameToPath, hfq]
+  | true =>
+    right
+    have hfq' : isFQM (parseN s) = true := by rw [isFQM_eq_isFQN]; exact hfq
+    exact ⟨rfl, by simp [nameToPath, hfq, pathJoin_parts hfq'], fq_safe hfq'⟩
+
+/-! ## 5. name relative paths -/
+
+theorem joinWith_splitOn (c : UInt8) (s : Bytes) : joinWith c (splitOn c s) = s := by
+  induction s with
+  | nil => rfl
+  | cons x xs ih =>
+    simp only [splitOn]
+    split
+    · rename_i hx
+      have hx' : x = c := by simpa using hx
+      obtain ⟨y, ys, hy⟩ := List.exists_cons_of_ne_nil (splitOn_ne_nil c xs)
+      rw [hy] at ih ⊢
+      simp [joinWith, ih, hx']
+    · split
+      · rename_i y ys hy
+        rw [hy] at ih
+        cases ys with
+        | nil => simp [joinWith] at ih ⊢; exact ih
+        | cons z zs => simp [joinWith] at ih ⊢; exact ih
+      · rename_i hy; exact absurd hy (splitOn_ne_nil c xs)
+
+/-- **`ParseNameFromFilepath` ∘ `Filepath` = id** on fully qualified names. -/
+theorem filepath_inverse (n : Name) (h : isFQM n = true) :
+    filepathM n = some (joinWith cSlash [n.host, n.ns, n.model, n.tag]) ∧
+    parseNameFromFilepath (joinWith cSlash [n.host, n.ns, n.model, n.tag]) = n := by
+  refine ⟨((filepath_shape n).2 h).1, ?_⟩
+  unfold parseNameFromFilepath
+  rw [splitOn_joinWith cSlash _ (by simp) (fun p hp => (fq_safe h p hp).noSlash)]
+  simp [h]
+
+/-- **Accepted relative paths**: for every byte string `s`, `ParseNameFromFilepath(s)` is either the zero
+    name or a fully qualified name whose `Filepath()` is `s` itself (so `s` has exactly four safe components). -/
+theorem relpath_accepted (s : Bytes) :
+    parseNameFromFilepath s = Name.zero ∨
+    (isFQM (parseNameFromFilepath s) = true ∧ filepathM (parseNameFromFilepath s) = some s) := by
+  unfold parseNameFromFilepath
+  split
+  · rename_i h ns m t hsp
+    by_cases hfq : isFQM { host := h, ns := ns, model := m, tag := t } = true
+    · right
+      simp only [hfq, if_true]
+      refine ⟨trivial, ?_⟩
+      have := joinWith_splitOn cSlash s
+      rw [hsp] at this
+      rw [((filepath_shape _).2 hfq).1]
+      exact congrArg some this
+    · left; simp only [hfq]; rfl
+  · left; rfl
+
+/-- the legacy path is injective on fully qualified names: names that differ (in case or otherwise) never
+    share a path.  Case-insensitive lookup in the legacy store is therefore entirely the business of
+    `routes.go getExistingName` (C04). -/
+theorem legacy_path_injective (n1 n2 : Name) (h1 : isFQM n1 = true) (h2 : isFQM n2 = true)
+    (h : filepathM n1 = filepathM n2) : n1 = n2 := by
+  have a := filepath_inverse n1 h1
+  have b := filepath_inverse n2 h2
+  rw [a.1, b.1] at h
+  have h' := Option.some.inj h
+  rw [← a.2, ← b.2, h']
+
 end OllamaVerif.C13
